@@ -874,6 +874,10 @@ class TT():
         if not self.__is_ttm or other.is_ttm:
             raise IncompatibleTypes(
                 'First operand should be a TT matrix and second a TT vector.')
+        if self.__N != other.N:
+            raise ShapeMismatch('Shapes are incompatible.')
+        if initial is not None and (not isinstance(initial, TT) or initial.is_ttm or initial.N != self.__M):
+            raise ShapeMismatch('The initial guess must be a TT tensor of the shape of the result.')
 
         return dmrg_matvec(self, other, y0=initial, eps=eps, verb=verb, nswp=nswp, use_cpp=use_cpp)
 
@@ -922,6 +926,9 @@ class TT():
         Returns:
             torchtt.TT: the result.
         """
+        if tn.is_tensor(other) and other.numel() != 1:
+            raise InvalidArguments(
+                'Operand not permitted. A TT-object can be divided only with scalars.')
         if isinstance(other, int) or isinstance(other, float) or tn.is_tensor(other):
             # divide by a scalar
             cores_new = self.cores.copy()
@@ -1261,6 +1268,8 @@ class TT():
 
             if self.__is_ttm:
 
+                if len(index) % 2 != 0:
+                    raise InvalidArguments('Slice size is invalid.')
                 cores_new = []
                 k = 0
                 for i in range(len(index)//2):
